@@ -75,7 +75,7 @@ CHECKS["C02"] = dict(
     technique="bounded symbolic execution of clang LLVM IR of conversion kernels between generated unit expressions, SMT (z3/cvc5), against an independent exact unit model",
     text="For seeded generated pairs of unit expressions (products, quotients, rational powers, roots, magnitudes, prefixes; five spellings) the int64 conversion kernel is proved for ALL x to be exactly "
          "x*N/D with the MODEL's N, D; the double kernel is proved for ALL x to be a single IEEE multiply/divide by a constant that is within 4 ulp of the model's exact ratio; ratio-1 pairs are the identity; "
-         "equivalence / same-dimension / type-identity / is_integer / is_rational are closed booleans compared with the model; the nine base-dimension exponents, read out of the unit's Dimension pack, equal the model's exponent vector for products and quotients of every pair of library units (one per distinct dimension in quick) and for every generated expression; every spelling (maker, singular name, symbol) of every library unit denotes its type's unit.",
+         "equivalence / same-dimension / type-identity / is_integer / is_rational are closed booleans compared with the model; the nine base-dimension exponents, read out of the unit's Dimension pack, equal the model's exponent vector for products and quotients of every pair of library units (one per distinct dimension in quick) and for every generated expression; every spelling (maker, singular name, symbol) of every library unit denotes its type's unit; scaling by a magnitude that is exactly 1 (six spellings) leaves named, prefixed, already-scaled and compound units unchanged.",
     note=TB + "; unit model written from SI/NIST definitions; expression trees enumerated (seeded); canonical type identity observed only as closed booleans; documented Hertz/Becquerel-style exclusions applied.")
 CHECKS["C07"] = dict(
     category="model_checking",
